@@ -20,6 +20,10 @@ def trig_gain(x):
     return np.where(x > 1.0, 2.0, 1.0)
 
 
+def trig_sq(x):
+    return 1.0 + x ** 2
+
+
 def zoo():
     """name -> builder.  Builders return (Model, kind) with kind in {'AE','DAE','FDAE'}."""
     from Solverz import Model, Var, Param, TimeSeriesParam, Eqn, Ode, AliasVar, sin, cos, exp, ln, Abs, Sign, Min, Saturation, heaviside, AntiWindUp
@@ -120,10 +124,19 @@ def zoo():
         m.x = Var("x", [0.5, 1.5])
         m.g = Param("g", [1.0, 2.0], triggerable=True, trigger_var=["x"], trigger_fun=trig_gain)
         m.b = Param("b", [0.3, 0.6])
-        m.e1 = Eqn("e1", m.g * m.x - m.b - m.x ** 3 / 10)
+        m.e1 = Eqn("e1", m.g * m.x ** 2 - m.b - m.x ** 3 / 10)      # g in the second derivative: HVP must fire the trigger
         return m, "AE"
 
-    return dict(ae_basic=ae_basic, ae_slices=ae_slices, ae_piecewise=ae_piecewise, dae_ts=dae_ts,
+    def ae_trigger_smooth():
+        # the stored value of k (10, 10) is NOT trigger_fun(x0): every function that uses k must fire the trigger
+        m = Model()
+        m.x = Var("x", [0.5, 1.5])
+        m.k = Param("k", [10.0, 10.0], triggerable=True, trigger_var=["x"], trigger_fun=trig_sq)
+        m.b = Param("b", [0.3, 0.6])
+        m.e1 = Eqn("e1", m.k * m.x ** 2 - m.b)
+        return m, "AE"
+
+    return dict(ae_trigger_smooth=ae_trigger_smooth, ae_basic=ae_basic, ae_slices=ae_slices, ae_piecewise=ae_piecewise, dae_ts=dae_ts,
                 dae_interleaved=dae_interleaved, ae_consts=ae_consts, dae_ts_index=dae_ts_index, dae_awu=dae_awu, fdae_heat=fdae_heat, ae_trigger=ae_trigger)
 
 
